@@ -11,11 +11,25 @@
 (* the engine showed (reported once, then later defects are still visible).   *)
 EXTENDS SqlModel, TraceKit
 
-VARIABLES l, viol
-tvars == <<svars, l, viol>>
+VARIABLES l, viol,
+          hadCrash,   \* a crash-style stop happened in this database's history
+          hasBtree    \* some table of this database has a B-tree indexed column
+tvars == <<svars, l, viol, hadCrash, hasBtree>>
+hvars == <<hadCrash, hasBtree>>
 
-V(tag, ln, info) == <<[tag |-> tag, line |-> ln, info |-> info]>>
 Tag(e, suffix) == e.ctx \o suffix
+V(tag, ln, info) == <<[tag |-> tag, line |-> ln, info |-> info, kf |-> "new"]>>
+VK(tag, ln, info, kf) == <<[tag |-> tag, line |-> ln, info |-> info, kf |-> kf]>>
+
+(* Known finding KF-C10-btree-reattach-after-crash (known_findings.json): after a crash-style restart a   *)
+(* B-tree index is rebuilt under a new header page, but the column catalog keeps the old header page id; *)
+(* the next clean shutdown + reopen re-attaches the stale pages and fails.  Signature: a failing Reopen   *)
+(* that follows a clean Shutdown in a history that contains a crash-style stop and a B-tree index.        *)
+ReopenCheck(e, ln) ==
+  IF e.res = "ok" THEN <<>>
+  ELSE IF hadCrash /\ hasBtree /\ ln > 1 /\ TraceLog[ln - 1].ev = "Shutdown"
+    THEN VK(Tag(e, ".fail"), ln, <<e.ev, e.res>>, "KF-C10-btree-reattach-after-crash")
+    ELSE V(Tag(e, ".fail"), ln, <<e.ev, e.res>>)
 
 BadValue(rows) == \E i \in DOMAIN rows : \E j \in DOMAIN rows[i] : rows[i][j] = -99
 
@@ -58,33 +72,40 @@ JoinCheck(e, ln) ==
        IF BagOfSeq(e.rows) # want THEN V(Tag(e, ".rows"), ln, [stmt |-> <<e.ts, e.on, e.filt, e.proj>>, plan |-> e.plan,
                                                              got |-> BagOfSeq(e.rows), want |-> want]) ELSE <<>>
 
-TInit == Init /\ l = 1 /\ viol = <<>>
+TInit == Init /\ l = 1 /\ viol = <<>> /\ hadCrash = FALSE /\ hasBtree = FALSE
 
 Ok(e) == e.res = "ok"
 
 TNext ==
   /\ l <= TraceLen
   /\ LET e == TraceLog[l] IN
-     CASE e.ev = "Reset" -> tables' = <<>> /\ snap' = <<>> /\ intxn' = FALSE /\ UNCHANGED viol
+     CASE e.ev = "Reset" -> tables' = <<>> /\ snap' = <<>> /\ intxn' = FALSE /\ UNCHANGED viol /\ hadCrash' = FALSE /\ hasBtree' = FALSE
        [] e.ev = "Create" -> /\ (IF Ok(e) /\ ~HasTable(e.t) THEN Create(e.t, e.cols) ELSE Stutter)
+                             /\ hasBtree' = (hasBtree \/ (Has(e, "kinds") /\ \E i \in DOMAIN e.kinds : e.kinds[i] = "btree")) /\ UNCHANGED hadCrash
                              /\ viol' = AddViol(viol, FailCheck(e, l))   \* (CREATE pins its index header pages for good)
-       [] e.ev = "Insert" -> /\ (IF HasTable(e.t) /\ Ok(e) THEN Insert(e.t, e.rows) ELSE Stutter)
+       [] e.ev = "Insert" -> /\ UNCHANGED hvars
+                             /\ (IF HasTable(e.t) /\ Ok(e) THEN Insert(e.t, e.rows) ELSE Stutter)
                              /\ viol' = AddViol(viol, FailCheck(e, l) \o PinCheck(e, l))
-       [] e.ev = "Update" -> /\ (IF HasTable(e.t) /\ Ok(e) THEN Update(e.t, e.pred, e.set) ELSE Stutter)
+       [] e.ev = "Update" -> /\ UNCHANGED hvars
+                             /\ (IF HasTable(e.t) /\ Ok(e) THEN Update(e.t, e.pred, e.set) ELSE Stutter)
                              /\ viol' = AddViol(viol, FailCheck(e, l) \o PinCheck(e, l))
-       [] e.ev = "Delete" -> /\ (IF HasTable(e.t) /\ Ok(e) THEN Delete(e.t, e.pred) ELSE Stutter)
+       [] e.ev = "Delete" -> /\ UNCHANGED hvars
+                             /\ (IF HasTable(e.t) /\ Ok(e) THEN Delete(e.t, e.pred) ELSE Stutter)
                              /\ viol' = AddViol(viol, FailCheck(e, l) \o PinCheck(e, l))
-       [] e.ev = "Select" -> /\ viol' = AddViol(viol, FailCheck(e, l) \o SelectCheck(e, l) \o PinCheck(e, l))
+       [] e.ev = "Select" -> /\ UNCHANGED hvars
+                             /\ viol' = AddViol(viol, FailCheck(e, l) \o SelectCheck(e, l) \o PinCheck(e, l))
                              /\ IF Has(e, "sync") /\ Ok(e) /\ ~BadValue(e.rows) /\ ~SameBag(e.rows, tables[e.t].rows)
                                   THEN tables' = Put(e.t, [tables[e.t] EXCEPT !.rows = e.rows]) /\ UNCHANGED <<snap, intxn>>
                                   ELSE Stutter
-       [] e.ev = "IdxPoint" -> Stutter /\ viol' = AddViol(viol, FailCheck(e, l) \o IdxPointCheck(e, l))
-       [] e.ev = "IdxRange" -> Stutter /\ viol' = AddViol(viol, FailCheck(e, l) \o IdxRangeCheck(e, l))
-       [] e.ev = "Join" -> Stutter /\ viol' = AddViol(viol, FailCheck(e, l) \o JoinCheck(e, l) \o PinCheck(e, l))
-       [] e.ev = "Begin" -> (IF ~intxn THEN Begin ELSE Stutter) /\ viol' = AddViol(viol, FailCheck(e, l))
-       [] e.ev = "Commit" -> (IF intxn THEN Commit ELSE Stutter) /\ viol' = AddViol(viol, FailCheck(e, l) \o PinCheck(e, l))
-       [] e.ev = "Abort" -> (IF intxn THEN Abort ELSE Stutter) /\ viol' = AddViol(viol, FailCheck(e, l) \o PinCheck(e, l))
-       [] e.ev \in {"Stats", "Shutdown", "Reopen", "Crash"} -> Stutter /\ viol' = AddViol(viol, FailCheck(e, l))
+       [] e.ev = "IdxPoint" -> UNCHANGED hvars /\ Stutter /\ viol' = AddViol(viol, FailCheck(e, l) \o IdxPointCheck(e, l))
+       [] e.ev = "IdxRange" -> UNCHANGED hvars /\ Stutter /\ viol' = AddViol(viol, FailCheck(e, l) \o IdxRangeCheck(e, l))
+       [] e.ev = "Join" -> UNCHANGED hvars /\ Stutter /\ viol' = AddViol(viol, FailCheck(e, l) \o JoinCheck(e, l) \o PinCheck(e, l))
+       [] e.ev = "Begin" -> UNCHANGED hvars /\ (IF ~intxn THEN Begin ELSE Stutter) /\ viol' = AddViol(viol, FailCheck(e, l))
+       [] e.ev = "Commit" -> UNCHANGED hvars /\ (IF intxn THEN Commit ELSE Stutter) /\ viol' = AddViol(viol, FailCheck(e, l) \o PinCheck(e, l))
+       [] e.ev = "Abort" -> UNCHANGED hvars /\ (IF intxn THEN Abort ELSE Stutter) /\ viol' = AddViol(viol, FailCheck(e, l) \o PinCheck(e, l))
+       [] e.ev \in {"Stats", "Shutdown"} -> Stutter /\ viol' = AddViol(viol, FailCheck(e, l)) /\ UNCHANGED hvars
+       [] e.ev = "Crash" -> Stutter /\ viol' = AddViol(viol, FailCheck(e, l)) /\ hadCrash' = TRUE /\ UNCHANGED hasBtree
+       [] e.ev = "Reopen" -> Stutter /\ viol' = AddViol(viol, ReopenCheck(e, l)) /\ UNCHANGED hvars
   /\ l' = l + 1
 
 TSpec == TInit /\ [][TNext]_tvars
